@@ -236,7 +236,8 @@ func drawVersionCase(t *rapid.T) VersionCase {
 			}
 		}
 	}
-	version := rapid.SampledFrom(versions).Draw(t, "version")
+	// 13.4.0 (templating with components, the shape with the most intricate localization handling) is drawn three times as often
+	version := rapid.SampledFrom(append(append([]string{}, versions...), "13.4.0", "13.4.0")).Draw(t, "version")
 	feats := downgrade(t, f, version)
 	b, _ := json.Marshal(f)
 	return VersionCase{Version: version, Flow: b, Seed: int64(rapid.IntRange(1, 1000).Draw(t, "seed")), Feats: feats}
